@@ -51,6 +51,14 @@ func DriverFile(s0 *spec.Spec, v Variant) string {
 			continue
 		}
 		t := s.Rules[i].Sem.Text()
+		if s.Rules[i].Plain {
+			if t == "" {
+				s.Rules[i].Action = ""
+			} else {
+				s.Rules[i].Action = "{ " + t + " }"
+			}
+			continue
+		}
 		var body string
 		switch {
 		case t == "" && v.IsGo():
